@@ -76,6 +76,9 @@ class FunctionData:
                 )
 
                 end_name = name + "end"
+                if end_label_pos is not None:
+                    # the label as emitted (library functions carry their module's prefix)
+                    end_name = self.code[end_label_pos].op[:-1]
 
                 # Every exit point — 'j {name}end' (early return) or '{name}end:' (normal
                 # path) — needs 'pop ra' before its preceding return-value push, or before
